@@ -236,6 +236,72 @@ toy!(ToySum16, 16, true);
 toy!(ToySum24, 24, true);
 toy!(ToySum32, 32, true);
 
+// `ToyLinN`: toy digests for ordinary hashing plus a *composable* chain summary, so that
+// chain(a, max) . chain(0, a) == chain(0, max) holds by XOR algebra (needed by completeness
+// harnesses): the chain of the step function F_j(x) = x ^ M(base, j) ^ M(base, j + 1) where
+// base = toy(I, q, chain id). Position sensitive: a wrong from/to/chain id/start value changes the
+// result. The default loop it replaces is verified separately (chain_default_loop harnesses).
+#[inline(always)]
+fn lin_mask(base: u128, j: usize) -> u128 {
+    base.rotate_left((j as u32) & 127) ^ base.wrapping_add((j as u128) << 64 | j as u128)
+}
+macro_rules! toy_lin {
+    ($name:ident, $n:expr) => {
+        #[derive(Debug, Clone, PartialEq)]
+        pub struct $name(pub ToyCore);
+        impl Default for $name {
+            fn default() -> Self {
+                $name(ToyCore::new())
+            }
+        }
+        impl OutputSizeUser for $name {
+            type OutputSize = U32;
+        }
+        impl FixedOutput for $name {
+            fn finalize_into(self, _out: &mut Output<Self>) {}
+        }
+        impl Update for $name {
+            fn update(&mut self, data: &[u8]) {
+                self.0.absorb(data)
+            }
+        }
+        impl HashChain for $name {
+            const OUTPUT_SIZE: u16 = $n;
+            const BLOCK_SIZE: u16 = 64;
+            fn finalize(self) -> ArrayVec<[u8; 32]> {
+                ArrayVec::from_array_len(self.0.squeeze(), $n)
+            }
+            fn finalize_reset(&mut self) -> ArrayVec<[u8; 32]> {
+                let r = self.0.clone().squeeze();
+                self.0 = ToyCore::new();
+                ArrayVec::from_array_len(r, $n)
+            }
+            fn do_actual_hash_chain(&mut self, hc_data: &mut HashChainData, from: usize, to: usize) {
+                if from < to {
+                    let mut c = ToyCore::new();
+                    c.absorb(&hc_data[..22]);
+                    let d = c.squeeze();
+                    let mut b = [0u8; 16];
+                    b.copy_from_slice(&d[..16]);
+                    let base_a = u128::from_be_bytes(b);
+                    b.copy_from_slice(&d[16..]);
+                    let base_b = u128::from_be_bytes(b);
+                    let ma = (lin_mask(base_a, from) ^ lin_mask(base_a, to)).to_be_bytes();
+                    let mb = (lin_mask(base_b, from) ^ lin_mask(base_b, to)).to_be_bytes();
+                    let mut k = 0;
+                    while k < $n {
+                        hc_data[23 + k] ^= if k < 16 { ma[k] } else { mb[k - 16] };
+                        k += 1;
+                    }
+                }
+            }
+        }
+    };
+}
+toy_lin!(ToyLin16, 16);
+toy_lin!(ToyLin24, 24);
+toy_lin!(ToyLin32, 32);
+
 // `ToyN` keeps the library's *default* chain loop (no override): used where the chain loop itself
 // is the subject.
 macro_rules! toy_default_chain {
@@ -291,6 +357,10 @@ pub struct RecQuery {
     pub len: usize,
     /// toy fingerprint of the complete query (keyed by SALT)
     pub fp: [u8; 32],
+    /// 0 = digest query, 1 = summarised Winternitz chain (head = chain buffer I|q|id|j|start value)
+    pub kind: u8,
+    pub from: usize,
+    pub to: usize,
 }
 
 pub struct RecState {
@@ -301,7 +371,7 @@ pub struct RecState {
 }
 
 pub static mut REC: RecState = RecState {
-    q: [RecQuery { head: [0u8; REC_PREFIX], len: 0, fp: [0u8; 32] }; REC_MAXQ],
+    q: [RecQuery { head: [0u8; REC_PREFIX], len: 0, fp: [0u8; 32], kind: 0, from: 0, to: 0 }; REC_MAXQ],
     nq: 0,
     tape: [[0u8; 32]; REC_MAXQ],
     overflow: false,
@@ -333,10 +403,26 @@ impl RecCore {
                 REC.overflow = true;
                 return [0u8; 32];
             }
-            REC.q[k] = RecQuery { head: self.head, len: self.len, fp: self.fp.clone().squeeze() };
+            REC.q[k] = RecQuery { head: self.head, len: self.len, fp: self.fp.clone().squeeze(), kind: 0, from: 0, to: 0 };
             REC.nq = k + 1;
             REC.tape[k]
         }
+    }
+}
+
+/// record a summarised chain call and return the tape digest for it
+pub fn rec_chain(buf: &[u8], from: usize, to: usize) -> [u8; 32] {
+    unsafe {
+        let k = REC.nq;
+        if k >= REC_MAXQ {
+            REC.overflow = true;
+            return [0u8; 32];
+        }
+        let mut head = [0u8; REC_PREFIX];
+        head[..buf.len()].copy_from_slice(buf);
+        REC.q[k] = RecQuery { head, len: buf.len(), fp: [0u8; 32], kind: 1, from, to };
+        REC.nq = k + 1;
+        REC.tape[k]
     }
 }
 
@@ -377,6 +463,57 @@ macro_rules! rec {
 rec!(Rec16, 16);
 rec!(Rec24, 24);
 rec!(Rec32, 32);
+
+// RecSumN: as RecN, the Winternitz chain recorded as one summarised step (kind = 1)
+macro_rules! rec_sum {
+    ($name:ident, $n:expr) => {
+        #[derive(Debug, Clone, PartialEq)]
+        pub struct $name(pub RecCore);
+        impl Default for $name {
+            fn default() -> Self {
+                $name(RecCore::new())
+            }
+        }
+        impl OutputSizeUser for $name {
+            type OutputSize = U32;
+        }
+        impl FixedOutput for $name {
+            fn finalize_into(self, _out: &mut Output<Self>) {}
+        }
+        impl Update for $name {
+            fn update(&mut self, data: &[u8]) {
+                self.0.absorb(data)
+            }
+        }
+        impl HashChain for $name {
+            const OUTPUT_SIZE: u16 = $n;
+            const BLOCK_SIZE: u16 = 64;
+            fn finalize(self) -> ArrayVec<[u8; 32]> {
+                ArrayVec::from_array_len(self.0.emit(), $n)
+            }
+            fn finalize_reset(&mut self) -> ArrayVec<[u8; 32]> {
+                let r = self.0.emit();
+                self.0 = RecCore::new();
+                ArrayVec::from_array_len(r, $n)
+            }
+            fn do_actual_hash_chain(&mut self, hc_data: &mut HashChainData, from: usize, to: usize) {
+                // recorded even when empty (from == to) so that the harness sees every chain call
+                let d = rec_chain(&hc_data[..], from, to);
+                if from < to {
+                    hc_data[23..].copy_from_slice(&d[..$n]);
+                }
+            }
+        }
+    };
+}
+rec_sum!(RecSum16, 16);
+rec_sum!(RecSum24, 24);
+rec_sum!(RecSum32, 32);
+
+/// fingerprint of a byte string as the recording hashers compute it (for queries longer than the head)
+pub fn rec_fp(parts: &[&[u8]]) -> [u8; 32] {
+    toy_digest(parts)
+}
 
 #[cfg(kani)]
 pub fn rec_reset_symbolic() {
